@@ -16,20 +16,35 @@ RULE = ("cmp: triples (sometimes 2, 4, 5 objects) built around a shared network:
         "prefix lengths cover 0, 1, w-2, w-1, w and the illegal -1, w+1; offsets cover 0, 1, size-2, size-1, size, -1, -size. "
         "Each +n is often followed by -n (round trip). int: IPv4Obj(n)/IPv6Obj(n) for n around 0 and the maximum. "
         "non-trivial = cmp with two objects sharing the network number, or seq with an arithmetic/setter operation, distinct by "
-        "request line. Non-integer operands, empty objects and mixed families are not generated.")
+        "request line. cmpx stream: 2..4 operands around one 32-bit pattern and one prefix length <= 32 - non-empty objects of either "
+        "family (so that an IPv4 and an IPv6 object with the same integer and length meet), the empty objects IPv4Obj() / "
+        "IPv6Obj(), a str - with <, >, ==, != of every ordered pair (escaping exception class included) and hash(), int(), "
+        "__index__(), prefixlen, masklen, masklength, prefixlength, +1, -1, network_offset of every operand; the oracle judges "
+        "the same-family non-empty pairs and the non-empty operands, the rest is compared with the model. seqx stream: sequences "
+        "that assign the prefix length through all four names (prefixlen, masklen, masklength, prefixlength) with int and with str "
+        "arguments (decimal text, leading zero, sign, blanks, empty, junk), assign network_offset a str or a float, add a str / "
+        "subtract a float, and read the four length getters, int() and __index__() in between (dotted-netmask texts are C11's).")
 LEVEL_TEXT = ("Theorems (Lean 4, all objects, any address width): __lt__ is the lexicographic order on (network, prefix length, address): "
               "irreflexive, asymmetric, transitive, trichotomous with __eq__; __gt__ is its flip; __eq__ iff same address and length; "
               "equal objects hash equal for any string hash; sorted() is an ordered permutation and puts a contained, more specific prefix "
               "after its container, so the first match in descending order is the longest match; x+n / x-n succeed exactly inside the address "
               "space, keep the prefix length and cancel; the prefixlen setter keeps the address; the network_offset setter sets it for "
-              "every offset inside the network and rejects every other integer, negative ones included.")
+              "every offset inside the network and rejects every other integer, negative ones included. On any operands (empty objects, "
+              "the other family, a str): on two non-empty objects the operators are the modelled ones (numeric, also across families; "
+              "IPv4Obj != IPv6Obj is always True); < and > raise ValueError as soon as one operand is empty or no address object; two "
+              "empty objects of a family are equal, an empty and a non-empty one are not; a str never equals an object; hash() returns, "
+              "int() is the address and the four length names agree on every non-empty object. masklen, masklength and (IPv4) "
+              "prefixlength assign exactly as prefixlen (IPv6Obj.prefixlength has no setter: AttributeError); the decimal text of n "
+              "assigns n, the decimal text of k is the offset k; other texts, a float offset and non-int operands of + / - are rejected "
+              "(NetmaskValueError, ValueError, NotImplementedError, ValueError).")
 LEVEL_NOTE = ("Trusted: Lean kernel; axioms propext/Classical.choice/Quot.sound only; the correspondence harness; the value-level reading "
               "of an object. hash() is uninterpreted in the model: only 'equal objects hash equal' is proved, and checked on the real hashes.")
 EXHAUSTIVE = {"quick": False, "thorough": False}
 ASSUMPTIONS = [
     "an object is read as (int(ip_object), int(network_object.network_address), network_object.prefixlen); text forms are C11",
     "str(ip_object) and str(prefixlen) are functions of the address and the length (used for eq_hash)",
-    "operands of + and - are ints; setter arguments are ints (a str netmask such as '255.255.0.0' is accepted by the code but not modelled)",
+    "setter arguments are ints or texts over digits, signs and blanks (a str netmask such as '255.255.0.0' is accepted by the code "
+    "but not modelled here - text forms are C11)",
 ]
 TRUSTED = ["stdlib ipaddress (used as the independent oracle for network numbers and bounds)"]
 
